@@ -124,6 +124,9 @@ Proof.
 Qed.
 
 (* ---------- frontend steps *)
+(* the unbounded queue's empty() does not answer "not empty" for a queue that holds nothing *)
+Definition nospur (x : thr) : Prop := qev x = [] -> u_hint x = true.
+
 Definition wg (s : st) (o : op) : Prop :=
   match o with
   | F (FTry t) =>
@@ -138,7 +141,11 @@ Definition wg (s : st) (o : op) : Prop :=
       (* a read pass does not start on a thread whose unbounded queue has a drained node followed by an empty one
          (prepare_read follows one link per call and would return nothing although later nodes hold records): that
          state arises only after shrink_thread_local_queue followed by a record larger than the shrunken node *)
-      match pc s with PReading (u :: _) => u_blocked K (th s u) = false | _ => True end
+      match pc s with
+      | PReading (u :: _) => u_blocked K (th s u) = false
+      | PBatch => forall v, nospur (th s v)     (* empty() of an unbounded queue answers "empty" when nothing is queued *)
+      | _ => True
+      end
   | _ => True
   end.
 
@@ -465,18 +472,18 @@ Proof.
 Qed.
 
 (* emptiness of the queue as the consumer sees it = no queued statement *)
-Lemma empty_nil_true x iss del : TInv K x iss del -> qev x = [] -> snd (q_empty x) = true.
+Lemma empty_nil_true x iss del : TInv K x iss del -> u_hint x = true -> qev x = [] -> snd (q_empty x) = true.
 Proof.
-  intros [Hc [h1 h2 h3 h4 h5 h6 h7 h8 h9] Hr Ha Hp Hx] Hq. unfold q_empty, empty.
+  intros [Hc [h1 h2 h3 h4 h5 h6 h7 h8 h9] Hr Ha Hp Hx] Hh Hq. unfold q_empty, empty.
   rewrite Hq in Hr. cbn in Hr. rewrite Hr in h7. cbn in h7.
-  destruct (N.eqb_spec (wcache (q x)) (rpos (q x))) as [E|NE]; cbn.
+  destruct (N.eqb_spec (wcache (q x)) (rpos (q x))) as [E|NE]; cbn [snd]; rewrite Hh, andb_true_r; cbn.
   - apply N.eqb_eq. lia.
   - exfalso. lia.
 Qed.
 
-Lemma qempty_iff x iss del : TInv K x iss del -> (snd (q_empty x) = true <-> qev x = []).
+Lemma qempty_iff x iss del : TInv K x iss del -> nospur x -> (snd (q_empty x) = true <-> qev x = []).
 Proof.
-  intro T. split; [|now apply (empty_nil_true x iss del)].
+  intros T Hs. split; [|intro Hq; now apply (empty_nil_true x iss del T (Hs Hq))].
   intro H. pose proof (q_empty_true_nil K x iss del T H) as Hn.
   now destruct (q_empty_fields x) as (A & _); rewrite A in Hn.
 Qed.
@@ -493,6 +500,11 @@ Proof.
   repeat split. intro v. cbn. unfold upd. destruct (Nat.eqb_spec v u) as [->|]; [apply athr_qempty|reflexivity].
 Qed.
 
+Lemma nospur_qempty x : nospur x -> nospur (fst (q_empty x)).
+Proof.
+  unfold nospur. intros H Hq. rewrite u_hint_qempty. apply H. destruct (q_empty_fields x) as (A & _). now rewrite <- A.
+Qed.
+
 (* has_pending...: the scan answers the skeleton's question *)
 Definition apending (s : st) (u : nat) : bool :=
   match tbuf (th s u), qev (th s u) with [], _ :: _ => true | _, _ => false end.
@@ -506,22 +518,25 @@ Proof.
   destruct (q_empty_fields (th s u)) as (A & B & _). now rewrite A, B.
 Qed.
 
-Lemma pending_scan_sim l : forall s, Good K s ->
+Lemma pending_scan_sim l : forall s, Good K s -> (forall v, nospur (th s v)) ->
   asame s (fst (pending_scan s l)) /\ Good K (fst (pending_scan s l)) /\
   snd (pending_scan s l) = existsb (apending s) l.
 Proof.
-  induction l as [|u r IH]; intros s G; cbn [pending_scan existsb]; [split; [apply asame_refl|split; [exact G|reflexivity]]|].
+  induction l as [|u r IH]; intros s G NS; cbn [pending_scan existsb]; [split; [apply asame_refl|split; [exact G|reflexivity]]|].
   unfold apending at 1. destruct (tbuf (th s u)) eqn:Tb.
-  - pose proof (qempty_iff (th s u) _ _ (proj1 G u)) as Hq.
+  - pose proof (qempty_iff (th s u) _ _ (proj1 G u) (NS u)) as Hq.
     pose proof (good_qempty K s u G) as G1. pose proof (asame_qempty s u) as A1.
+    pose proof (nospur_qempty (th s u) (NS u)) as NS1.
     destruct (q_empty (th s u)) as [x1 e] eqn:E. cbn [fst snd] in *.
+    assert (NS' : forall v, nospur (th (set_th s (upd (th s) u x1)) v)).
+    { intro v. cbn. unfold upd. destruct (Nat.eqb_spec v u) as [->|]; [exact NS1|apply NS]. }
     destruct e.
     + assert (Hn : qev (th s u) = []) by now apply Hq. rewrite Hn. cbn [orb].
-      destruct (IH _ G1) as (A2 & G2 & P2). split; [eapply asame_trans; eauto|]. split; [exact G2|].
+      destruct (IH _ G1 NS') as (A2 & G2 & P2). split; [eapply asame_trans; eauto|]. split; [exact G2|].
       rewrite P2. apply existsb_ext'. intro v. pose proof (apending_qempty s u v) as Hv. rewrite E in Hv. exact Hv.
     + destruct (qev (th s u)) eqn:Q; [exfalso; assert (false = true) by (apply Hq; reflexivity); discriminate|].
       cbn [orb]. split; [exact A1|]. split; [exact G1|reflexivity].
-  - destruct (IH s G) as (A2 & G2 & P2). split; [exact A2|]. split; [exact G2|]. rewrite P2. reflexivity.
+  - destruct (IH s G NS) as (A2 & G2 & P2). split; [exact A2|]. split; [exact G2|]. rewrite P2. reflexivity.
 Qed.
 
 Lemma all_empty_scan_sim l : forall s acc, Good K s ->
@@ -733,7 +748,10 @@ Proof.
   - (* PBatch *)
     pose proof (refresh_Rnp s a G Fl HN) as HN0. pose proof (refresh_good K s G) as G0.
     destruct (refresh_flag s Fl) as (Fl0 & Hc0 & Hr0).
-    destruct (pending_scan_sim (cache (refresh K s)) (refresh K s) G0) as (A1 & G1 & P1).
+    assert (NS0 : forall v, nospur (th (refresh K s) v)).
+    { cbn [wg] in Hwb. rewrite Hpc in Hwb. intro v. specialize (Hwb v). unfold refresh. destruct (newflag s); [|exact Hwb].
+      cbn [th set_cache set_th]. destruct (memb v (registered s) && negb (texists (th s v))); exact Hwb. }
+    destruct (pending_scan_sim (cache (refresh K s)) (refresh K s) G0 NS0) as (A1 & G1 & P1).
     destruct (pending_scan (refresh K s) (cache (refresh K s))) as [s1 pending]. cbn [fst snd] in *.
     pose proof (Rnp_asame _ _ _ A1 HN0) as HN1.
     assert (Hps : Ord.pending_somewhere (ostep a Ord.BSync) = pending).
